@@ -268,3 +268,184 @@ def k1(rep, M):
             w, side = res
             rep.bad(R, "blackbirdParser." + r.name, "L(code of %s()) = L(ATN sub-machine %d)" % (r.name, M.G.pidx[r.name]),
                     "shortest distinguishing word [%s] accepted only by the %s" % (fmt_word(M.G, M, w), "generated code" if side == "left" else "ATN"))
+
+
+# ------------------------------------------------------------------------------------------------ K1b: decisions and state numbers
+class CondEval:
+    """truth value of a generated lookahead condition for one token type (finite-model evaluation over all token types)"""
+
+    def __init__(self, consts, value):
+        self.consts, self.value = consts, value
+
+    def ev(self, e):
+        if isinstance(e, ast.Constant) and isinstance(e.value, (int, bool)):
+            return e.value
+        if isinstance(e, ast.Name) and e.id in ("_la", "token", "la_"):
+            return self.value
+        if isinstance(e, ast.Attribute) and u(e.value) in ("blackbirdParser", "self", "Token") and e.attr in self.consts:
+            return self.consts[e.attr]
+        if isinstance(e, (ast.List, ast.Tuple, ast.Set)):
+            return [self.ev(x) for x in e.elts]
+        if isinstance(e, ast.UnaryOp):
+            v = self.ev(e.operand)
+            if isinstance(e.op, ast.Not):
+                return not v
+            if isinstance(e.op, ast.Invert):
+                return ~v
+            if isinstance(e.op, ast.USub):
+                return -v
+        if isinstance(e, ast.BoolOp):
+            vals = [self.ev(x) for x in e.values]
+            return all(vals) if isinstance(e.op, ast.And) else any(vals)
+        if isinstance(e, ast.BinOp):
+            a, b = self.ev(e.left), self.ev(e.right)
+            if isinstance(e.op, ast.BitAnd): return a & b
+            if isinstance(e.op, ast.BitOr): return a | b
+            if isinstance(e.op, ast.LShift): return a << b if b >= 0 else 0
+            if isinstance(e.op, ast.Sub): return a - b
+            if isinstance(e.op, ast.Add): return a + b
+        if isinstance(e, ast.Compare) and len(e.ops) == 1:
+            a, b = self.ev(e.left), self.ev(e.comparators[0])
+            op = e.ops[0]
+            if isinstance(op, ast.Eq): return a == b
+            if isinstance(op, ast.NotEq): return a != b
+            if isinstance(op, ast.In): return a in b
+            if isinstance(op, ast.NotIn): return a not in b
+            if isinstance(op, ast.Lt): return a < b
+            if isinstance(op, ast.LtE): return a <= b
+            if isinstance(op, ast.Gt): return a > b
+            if isinstance(op, ast.GtE): return a >= b
+        raise Inconclusive("K1b: lookahead condition `%s`" % u(e)[:70])
+
+
+def k1b(rep, M):
+    """(1) every LL(1) token test of a rule method equals the lookahead set ANTLR's analysis gives for that alternative of the ATN state
+    the method is in; (2) every adaptivePredict names the decision of that state; (3) every state number the method sets before a
+    match / rule call is an ATN state of this rule with exactly that transition (state numbers drive sync(), expected-token sets and
+    the positions of error reports)."""
+    from ..gram.look import Look, HIT_PRED
+    R = "C14.K1b"
+    rep.rule(R, "decisions of the generated Python parser: LL(1) token tests equal the ATN's lookahead sets, adaptivePredict decision numbers and the state numbers set before "
+                "each match / rule call are those of the ATN", floor=150)
+    A = M.PA
+    L = Look(A)
+    consts = {k: v for k, v in M.ptab["consts"].items() if not k.startswith("RULE_")}
+    consts["EOF"] = -1
+    names = {v: k for k, v in consts.items()}
+    rules = {n: i for i, n in enumerate(M.ptab["ruleNames"])}
+    universe = [-1] + list(range(1, A.maxTokenType + 1))
+
+    def fmt(ts):
+        return "{%s}" % ", ".join(sorted(str(names.get(t, t)) for t in ts))
+
+    def cond_set(e):
+        return {t for t in universe if CondEval(consts, t).ev(e)}
+
+    meths = {n.name: n for n in M.ptab["cls"].body if isinstance(n, ast.FunctionDef)}
+    for r in M.G.prules:
+        fn = meths.get(r.name)
+        if fn is None:
+            continue
+        ridx = rules[r.name]
+        where = "blackbirdParser." + r.name
+        cur = [None]
+
+        def state_obj(n, what):
+            if n is None or n >= len(A.states) or A.states[n] is None:
+                rep.bad(R, where, "%s happens in a state of the ATN" % what, "state %r" % n, key="%s|%s|nostate" % (r.name, what[:40]))
+                return None
+            st = A.states[n]
+            if st.rule != ridx:
+                rep.bad(R, where, "state %d set before %s belongs to rule %s" % (n, what, r.name), "it is a state of rule %s" % M.ptab["ruleNames"][st.rule], key="%s|%d|rule" % (r.name, n))
+                return None
+            return st
+
+        def check_look(n, alt, e, what):
+            st = state_obj(n, what)
+            if st is None:
+                return
+            if alt >= len(st.trans):
+                rep.bad(R, where, "state %d has an alternative %d" % (n, alt + 1), "it has %d" % len(st.trans), key="%s|%d|alts" % (r.name, n))
+                return
+            want = L.of_target(st.trans[alt].dst)
+            if HIT_PRED in want:
+                rep.bad(R, where, "state %d alternative %d is decided by token tests only if no predicate is in the way" % (n, alt + 1), key="%s|%d|%d|pred" % (r.name, n, alt))
+                return
+            got = cond_set(e)
+            rep.check(got == want, R, where, "%s at state %d, alternative %d: tested tokens = LOOK = %s" % (what, n, alt + 1, fmt(want)),
+                      "the code tests %s; missing %s, extra %s" % (fmt(got), fmt(want - got), fmt(got - want)), key="%s|%d|%d|look" % (r.name, n, alt))
+
+        def call_of(s):
+            v = s.value if isinstance(s, (ast.Expr, ast.Assign)) else None
+            if isinstance(v, ast.Call) and isinstance(v.func, ast.Attribute) and u(v.func.value) == "self":
+                return v
+            return None
+
+        def walk(stmts):
+            for s in stmts:
+                if isinstance(s, ast.Assign) and u(s.targets[0]) == "self.state" and isinstance(s.value, ast.Constant):
+                    cur[0] = s.value.value
+                    continue
+                c = call_of(s)
+                if c is not None:
+                    f = c.func.attr
+                    if f == "match" and len(c.args) == 1:
+                        st = state_obj(cur[0], "match(%s)" % u(c.args[0]).split(".")[-1])
+                        if st is not None:
+                            t = CondEval(consts, None).ev(c.args[0])
+                            ok = any(tr.type in ("ATOM", "RANGE", "SET") and t in L.label(tr) for tr in st.trans)
+                            rep.check(ok, R, where, "state %d has a transition on %s" % (cur[0], names.get(t, t)), "transitions %s" % [(tr.type, tr.a1) for tr in st.trans],
+                                      key="%s|%d|match" % (r.name, cur[0]))
+                    elif f in rules:
+                        st = state_obj(cur[0], "%s()" % f)
+                        if st is not None:
+                            prec = ast.literal_eval(c.args[0]) if c.args else 0
+                            ok = any(tr.type == "RULE" and tr.a2 == rules[f] and tr.a3 == prec for tr in st.trans)
+                            rep.check(ok, R, where, "state %d calls rule %s with precedence %d" % (cur[0], f, prec), "transitions %s" % [(tr.type, tr.a2, tr.a3) for tr in st.trans],
+                                      key="%s|%d|call" % (r.name, cur[0]))
+                if isinstance(s, ast.Assign) and "adaptivePredict" in u(s.value):
+                    m = re.search(r"adaptivePredict\(self\._input,\s*(\d+),", u(s.value))
+                    d = int(m.group(1)) if m else None
+                    ok = d is not None and d < len(A.decisions)
+                    if ok:
+                        # the decision state is the state just set, or (loop re-evaluation) a state whose only way on is an epsilon edge into it
+                        ds = A.decisions[d]
+                        st = A.states[cur[0]] if cur[0] is not None and cur[0] < len(A.states) else None
+                        ok = cur[0] == ds or (st is not None and len(st.trans) == 1 and st.trans[0].type == "EPSILON" and st.trans[0].dst == ds)
+                    rep.check(ok, R, where, "adaptivePredict(%s) at state %s names the decision of that state" % (d, cur[0]),
+                              "decision %s belongs to state %s" % (d, A.decisions[d] if d is not None and d < len(A.decisions) else "?"), key="%s|%s|decision" % (r.name, d))
+                    continue
+                if isinstance(s, ast.If):
+                    t = u(s.test)
+                    if t.startswith("token in ["):
+                        n, i, curif = cur[0], 0, s
+                        while True:
+                            check_look(n, i, curif.test, "LL(1) switch")
+                            walk(curif.body)
+                            i += 1
+                            if len(curif.orelse) == 1 and isinstance(curif.orelse[0], ast.If) and u(curif.orelse[0].test).startswith("token in ["):
+                                curif = curif.orelse[0]
+                                continue
+                            walk(curif.orelse)
+                            break
+                        continue
+                    if ("_la" in t) and "blackbirdParser." in t and not s.orelse and not t.startswith("not"):
+                        check_look(cur[0], 0, s.test, "LL(1) optional block")
+                        walk(s.body)
+                        continue
+                    if t.startswith("not") and s.body and isinstance(s.body[0], ast.Break):
+                        # plus loop exit test: `if not (COND): break` - COND is the loop-back alternative of the state just set
+                        check_look(cur[0], 0, s.test.operand if isinstance(s.test, ast.UnaryOp) else s.test, "LL(1) plus loop")
+                        continue
+                    walk(s.body)
+                    walk(s.orelse)
+                    continue
+                if isinstance(s, ast.While):
+                    t = " ".join(u(s.test).split())
+                    if "_la" in t and "blackbirdParser." in t:
+                        check_look(cur[0], 0, s.test, "LL(1) star loop")
+                    walk(s.body)
+                    continue
+                if isinstance(s, ast.Try):
+                    walk(s.body)
+        walk(fn.body)
